@@ -115,9 +115,9 @@ Proof.
   apply Lk_nonzero; [apply crc_ccitt_lt|apply delta_nonzero; assumption].
 Qed.
 
-Lemma ib_single_byte body a x y b :
+Lemma ib_single_byte types body a x y b :
   unescape body = a ++ y :: b -> crc_of (a ++ x :: b) = 0 -> x < 256 -> y < 256 -> x <> y ->
-  ib_decode (13 :: body ++ [10]) = Err EValue.
+  ib_decode types (13 :: body ++ [10]) = Err EValue.
 Proof.
   intros U C Hx Hy NE. apply ib_reject. right. right. right. left.
   cbn [tl]. rewrite removelast_last, U. apply (crc_single_byte a x y b Hx Hy NE C).
